@@ -390,10 +390,6 @@ def _cheap_rsa_checks(deny, fermat_steps=None):
           rs.CheckOpensslDenylist(_denylist_storage(deny))]
 
 
-# severities of the checks that README.md does not list: the constructor's documented value (class docstrings / code)
-_EXPECTED_SEVERITY_FALLBACK = "constructor"
-
-
 def _faithful(ctx, arts, checks_run, rets, applicable, inputs, documented, version, sev_exception=None):
   """Clauses for FRESH artifacts after running `checks_run` (list of check objects) once each."""
   any_weak = False
